@@ -465,6 +465,10 @@ func lexMetricAttribute(l *Lexer) stateFn {
 			l.err = err
 			return nil
 		}
+		if !(v > 0) || math.IsInf(v, 1) {
+			l.err = errInvalidFormat
+			return nil
+		}
 		l.sampling = v
 	case '#':
 		for {
